@@ -1,9 +1,14 @@
 """C05 – session lifecycle: resume iff it should, and one connection per client id.
 Timed trace validation against Broker.tla (ResumeVerdicts, ConnEnd/expireAt, ApiTerminate, Attach) with the broker's own
 register / unregister / closed events in the trace (at most one registered connection per id; the displaced connection
-has finished before the newer one is registered); sequential take-overs and storms of simultaneous CONNECTs."""
+is closed before the newer one is registered / acknowledged); sequential take-overs, storms of simultaneous CONNECTs and
+schedule gating: TakeOver.tla (lockDuplicatedID / registerClient / teardown at the grain of the code) is model-checked
+(OneLive, DisplacedClosedFirst, termination) and every schedule it admits - the order of arrivals and gate releases of N
+simultaneous CONNECTs on one client id, N = 2 exhaustively, N = 3 per parameter vector - is forced on the real broker
+through the blocking gate hooks; the recorded traces are validated like all others."""
 import random
 import vlib, trace_lib, scen
+import takeover_lib as tk
 
 LEVEL = "model_checking"
 INV = ("IdsDistinct", "SubsKeyed", "OneConnPerId")
@@ -18,9 +23,48 @@ def run(ctx):
                        "simultaneous CONNECTs on one client id, with and without a stored offline session; (d) scenarios that live through the 20 s expiry sweep "
                        "(a resumed, connected session survives it; an offline one past its expiry is gone). TLC validates Session Present, state intact "
                        "(subscriptions route, queued QoS1 delivered) and, from the broker's register/unregister/closed events, at most one registered "
-                       "connection per id and displaced-closed-before-registered; non-trivial = all scenarios")
+                       "connection per id, the socket of a displaced connection closed before the next one is registered, and (wire level) the end of every "
+                       "older connection readable when a CONNACK is read; (e) schedule gating: every schedule of TakeOver.tla for 2 simultaneous "
+                       "CONNECTs x 16 parameter vectors (clean, expiry) x {no session, offline session, online expiry>0, online expiry 0} and for 3 "
+                       "simultaneous CONNECTs (%s) forced through the gate hooks; non-trivial = all scenarios" % ("1 seeded parameter vector, 500 seeded schedules" if quick else "4 seeded parameter vectors, all schedules"))
     ctx.assumptions += ["real seconds; decisive instants >= 500 ms from deadlines; WinMs = 450 ms either verdict allowed inside the window",
                         "hook events are logged under srv.mu (their order is the broker's order)"]
+    # ---- schedule gating: every interleaving of simultaneous CONNECTs at gate granularity (TakeOver.tla)
+    res2, sch2 = tk.run_model(ctx, 2, tk.PRES, tk.all_pars(2), workers=4)
+    if res2.violation or res2.rc != 0:
+        raise vlib.MachineryError("design-level check of TakeOver.tla (N=2) failed:\n" + (res2.violation or "\n".join(res2.tail[-15:])))
+    nvec = 1 if quick else 4
+    res3, sch3 = tk.run_model(ctx, 3, tk.PRES, rng.sample(tk.all_pars(3), nvec), workers=8, liveness=quick, name="TakeOver_n3")
+    if res3.violation or res3.rc != 0:
+        raise vlib.MachineryError("design-level check of TakeOver.tla (N=3) failed:\n" + (res3.violation or "\n".join(res3.tail[-15:])))
+    n3 = len(sch3)
+    if quick:
+        sch3 = rng.sample(sch3, min(len(sch3), 500))
+    gated = [tk.to_scenario("s%d" % ctx.seed, i, s, rng) for i, s in enumerate(sch2 + sch3)]
+    design = {"N2": {"states": res2.distinct, "schedules": len(sch2), "parameter_vectors": 16},
+              "N3": {"states": res3.distinct, "schedules": n3, "parameter_vectors": nvec, "executed": len(sch3)}}
+    if not quick:
+        caught = {}
+        for m in ("no_recheck", "relock_window"):
+            r = tk.run_model(ctx, 2, tk.PRES, tk.all_pars(2), mutant=m, dump=False, workers=4)[0]
+            caught[m] = bool(r.violation and "OneLive" in r.violation)
+        design["mutant_violates_OneLive"] = caught
+        if not all(caught.values()):
+            raise vlib.MachineryError("self-test: a mutant of TakeOver.tla does not violate OneLive: %s" % caught)
+    ctx.cov["takeover_model"] = design
+    rejected_g, stats_g = trace_lib.validate(ctx, gated, "c05gate", invariants=INV, par=32)
+    ctx.cov["traces_validated_against_impl"] += stats_g["validated"] + stats_g["rejected"]
+    ctx.cov["evaluations"] += stats_g["events"]
+    ctx.cov["distinct_nontrivial"] += stats_g["scenarios"]
+    ctx.cov["gated_schedules"] = stats_g
+    steps = stats_g.get("sched_followed", 0) + stats_g.get("sched_diverged", 0)
+    if not rejected_g and steps and stats_g.get("sched_diverged", 0) * 20 > steps:
+        # the code does not stop at the gates where TakeOver.tla says it does although every trace is explained: the model of
+        # the schedule no longer describes the code (machinery trouble, not a verdict)
+        raise vlib.MachineryError("%d of %d gate releases did not find the connection where TakeOver.tla predicts (e.g. %s)"
+                                  % (stats_g["sched_diverged"], steps, stats_g.get("sched_diverged_scenarios", [])[:3]))
+    trace_lib.confirm(ctx, rejected_g, INV, limit=4)
+    # ---- free-running scenarios
     scs = scen.c05_sweeper(rng, "s%d" % ctx.seed, 4 if quick else 16) + scen.c05_sessions(rng, "s%d" % ctx.seed, 150 if quick else 1500)
     rejected, stats = trace_lib.validate(ctx, scs, "c05", invariants=INV, par=40)
     ctx.cov["traces_validated_against_impl"] += stats["validated"] + stats["rejected"]
